@@ -130,9 +130,16 @@ pub fn check_triple_parsed(which: u8, y: i32, m: u32, d: u32) -> Result<bool, St
         0 => (format!("{y:04}-{m:02}-{d:02}"), "YYYY-MM-DD"),
         1 => (format!("{d}.{m}.{y} 10:20:30"), "DD.MM.YYYY HH24:MI:SS"),
         2 => (format!("{m:02}/{d:02}/{y:04}"), "MM/DD/YYYY"),
-        _ => (format!("{d:02} {y:04} {m:02}"), "DD YYYY MM"),
+        3 => (format!("{d:02} {y:04} {m:02}"), "DD YYYY MM"),
+        // a fraction that rounds up to the next second at 23:59:59: a real date carries into the
+        // next day, an impossible triple stays impossible
+        _ => (format!("{y:04}-{m:02}-{d:02} 23:59:59.9999996"), "YYYY-MM-DD HH24:MI:SS.FF9"),
     };
-    let extra = if which / 3 == 1 { 37_230_000_000i128 } else { 0 };
+    let extra = match which / 3 {
+        1 => 37_230_000_000i128,
+        4 => 86_400_000_000,
+        _ => 0,
+    };
     let name = ["Date", "Timestamp", "OracleDate"][which as usize % 3];
     let res: Result<i128, Error> = guarded(|| match which % 3 {
         0 => Date::parse(&text, pic).map(|x| x.days() as i128 * 86_400_000_000 + extra),
@@ -140,7 +147,21 @@ pub fn check_triple_parsed(which: u8, y: i32, m: u32, d: u32) -> Result<bool, St
         _ => OracleDate::parse(&text, pic).map(|x| x.usecs() as i128),
     })
     .map_err(|p| format!("{name}::parse({text:?}, {pic:?}): {p}"))?;
-    if which % 3 == 0 && which / 3 == 1 {
+    if which / 3 == 4 && which % 3 == 2 {
+        // the Oracle-style date has no fraction field: any error
+        return match res {
+            Err(_) => Ok(false),
+            Ok(x) => Err(format!("OracleDate::parse({text:?}, {pic:?}) = Ok({x}) although the picture has a fraction field")),
+        };
+    }
+    if which / 3 == 4 && expect == Some(c.last) {
+        // the carry leaves the range: any error
+        return match res {
+            Err(_) => Ok(false),
+            Ok(x) => Err(format!("{name}::parse({text:?}, {pic:?}) = Ok({x}): the rounded-up second lies after the maximum")),
+        };
+    }
+    if which % 3 == 0 && (which / 3 == 1 || which / 3 == 4) {
         // a time-bearing picture does not apply to the plain date: any error
         return match res {
             Err(_) => Ok(false),
@@ -401,9 +422,9 @@ pub fn run(ctx: &Ctx) -> (Stats, Report) {
             let y = y as i32;
             for &m in &pm {
                 for &d in &pd {
-                    // four pictures (year first / last / in the middle) x three types, rotated so that every (month, day) pair meets each of them on every 12th year
-                    let rot = [((y as u32 + m + d) % 12) as u8, ((y as u32 + m + d + 5) % 12) as u8];
-                    let whichs: &[u8] = if all_entry_points { &[0, 1, 2, 3, 4, 5, 6, 7, 8, 9, 10, 11] } else { &rot };
+                    // five pictures (year first / last / in the middle, and one whose fraction carries out of 23:59:59) x three types, rotated; the carrying picture through Timestamp for every triple
+                    let rot = [((y as u32 + m + d) % 15) as u8, ((y as u32 + m + d + 7) % 15) as u8, 13];
+                    let whichs: &[u8] = if all_entry_points { &[0, 1, 2, 3, 4, 5, 6, 7, 8, 9, 10, 11, 12, 13, 14] } else { &rot };
                     for &which in whichs {
                         st.evaluations += 1;
                         match check_triple_parsed(which, y, m, d) {
